@@ -153,9 +153,53 @@ def site_tokens(vals):
     return out
 
 
+def multiprocess_le_check():
+    """Bucket label strings must agree across processes, restarts and clients: .db files whose bucket keys spell one
+    bound differently (written by another release or another client) are merged per BOUND by the multiprocess
+    collector and re-rendered canonically."""
+    import shutil
+    import tempfile
+    from prometheus_client.mmap_dict import MmapedDict, mmap_key
+    from prometheus_client.multiprocess import MultiProcessCollector
+    bad = []
+    d = tempfile.mkdtemp(prefix='c13mp')
+    try:
+        spellings = {1e6: ['1000000.0', '1e+06', '1e6'], 2.5e10: ['25000000000.0', '2.5e+10'], 1.0: ['1.0', '1'],
+                     float('inf'): ['+Inf', 'inf']}
+        files = []
+        for pid in range(3):
+            path = '%s/histogram_%d.db' % (d, pid)
+            md = MmapedDict(path)
+            for bound, sp in spellings.items():
+                le = sp[pid % len(sp)]
+                md.write_value(mmap_key('h', 'h_bucket', ['le'], [le], 'help'), 1.0, 0.0)
+            md.write_value(mmap_key('h', 'h_sum', [], [], 'help'), 3.0, 0.0)
+            md.close()
+            files.append(path)
+        fams = MultiProcessCollector.merge(files, accumulate=True)
+        les = [s.labels['le'] for f in fams for s in f.samples if s.name == 'h_bucket']
+        seen = {}
+        for le in les:
+            b = float(le)
+            r = direct(bits(b), le)
+            if r:
+                bad.append('multiprocess-le: ' + r)
+            if b in seen:
+                bad.append('multiprocess-le: bound %r exposed twice, as le=%r and le=%r (files spelling one bound differently '
+                           'were not merged per bound)' % (b, seen[b], le))
+            seen[b] = le
+        if len(seen) != len(spellings):
+            bad.append('multiprocess-le: %d bounds exposed for %d written' % (len(seen), len(spellings)))
+    except Exception as e:
+        bad.append('multiprocess-le: collector raised %s' % type(e).__name__)
+    finally:
+        shutil.rmtree(d, ignore_errors=True)
+    return bad
+
+
 def site_check():
     """direct oracle over every rendering site; returns list of violation strings"""
-    bad = []
+    bad = multiprocess_le_check()
     for vals in (SITE_VALUES, list(reversed(SITE_VALUES))):
         for site, d, tok in site_tokens(vals):
             if tok is None:
